@@ -1,6 +1,6 @@
 (* Props/C14.v — Type inference commutes with serialisation. *)
 From NIR Require Import Model.Serial Proofs.SerialProofs Proofs.InferProofs Proofs.LayoutProofs
-                        Proofs.SimProofs.
+                        Proofs.SimProofs Proofs.DictProofs Proofs.RoundTripProofs Proofs.InferSimProofs.
 
 (* (a) what inference stores survives a file: the Conv1d annotation (a numpy integer) is a fixed point of the
    round trip; the Conv2d annotation (a tuple of numpy integers) comes back as the same integers *)
@@ -65,8 +65,35 @@ Proof.
   exists n'. repeat split; assumption.
 Qed.
 
-(* The loop-level statement "types (infer (rt g)) = types (infer g)" for every graph is NOT assembled into one
-   theorem here; it is checked on the code for all interleavings up to length 4. *)
+(* (f) THE PROPERTY, FILE FORM: for every node built by the constructors that write accepts (domain of C01, plus: the
+   hyper-parameters of pooling children are not 0-d arrays — shown necessary by InferSimProofs.pool_0d_needed),
+   inferring types after the file round trip gives every node the same input and output types as inferring them on
+   the original (`types_rel`: same child names in the same order, same kinds, types equal up to the tuple/array
+   container, same edges), and infer_types raises on the one iff it raises on the other *)
+Theorem c14_infer_commutes_with_file : forall g t g',
+  built g -> rt_domain g -> write g = Ok t -> read t = Ok g' -> children_all pool_no0d g ->
+  types_rel (fst (infer_types g)) (fst (infer_types g')) /\
+  raised (snd (infer_types g)) = raised (snd (infer_types g')).
+Proof. exact infer_commutes_with_file. Qed.
+
+(* DICTIONARY FORM: the two inference runs are EQUAL *)
+Theorem c14_infer_commutes_with_dict : forall g g',
+  built g -> single_typed g -> from_dict (to_dict g) = Ok g' -> infer_types g' = infer_types g.
+Proof. exact infer_commutes_with_dict_eq. Qed.
+
+(* the core: inference cannot tell related graphs apart (lock-step simulation of the work-list) *)
+Theorem c14_infer_respects_relation : forall g g', grel g g' ->
+  grel (fst (infer_types g)) (fst (infer_types g')) /\
+  raised (snd (infer_types g)) = raised (snd (infer_types g')).
+Proof. exact infer_respects_grel. Qed.
+
+(* and neither can the type check *)
+Theorem c14_check_respects_relation : forall g g', types_rel g g' -> check_types g = check_types g'.
+Proof. exact check_types_rel. Qed.
+
+(* Compositions of round trips and inference (the property's "interleavings") follow by chaining (f) with C01/C13:
+   each round trip yields a related graph again; the chained statement is checked on the code for all interleavings
+   up to length 4. *)
 
 Print Assumptions c14_annotations_survive_file.
 Print Assumptions c14_conv1d_regain.
@@ -76,3 +103,7 @@ Print Assumptions c14_constructors_respect_similarity.
 Print Assumptions c14_round_trip_values_are_similar.
 Print Assumptions c14_conv_arithmetic_respects_similarity.
 Print Assumptions c14_inference_changes_only_annotations.
+Print Assumptions c14_infer_commutes_with_file.
+Print Assumptions c14_infer_commutes_with_dict.
+Print Assumptions c14_infer_respects_relation.
+Print Assumptions c14_check_respects_relation.
